@@ -5,6 +5,7 @@ from .. import core, family
 
 SPEC = os.path.join(core.VERIF, "specs", "CFSync")
 DRIVER = os.path.join(core.VERIF, "harness", "overlay", "neutrino", "zz_verif_cfsync_test.go")
+RACE_DRIVER = os.path.join(core.VERIF, "harness", "overlay", "neutrino", "zz_verif_cfsync_race_test.go")
 HOOK = os.path.join(core.VERIF, "harness", "overlay", "chainsync", "zz_verif_cfsync_hook.go")
 PKG = core.REPO
 
@@ -27,13 +28,19 @@ MANIFEST = {
              "GCS filters at the disputed heights) and the clauses of CFSyncProps.tla (not ahead, belongs to its "
              "block, append only as successor, equals hard-coded checkpoints, dispute: honest value committed, "
              "liars banned, honest peer not banned) are evaluated by TLC on the observed stores and ban calls. "
-             "Where the code leaves the model the handler is left to run on and is still judged.",
+             "Where the code leaves the model the handler is left to run on and is still judged. A second model "
+             "(specs/CFSync/CFRace.tla) has rollBackToHeight and writeCFHeadersMsg as two processes at store-call "
+             "granularity with the mutex as in the code; TLC enumerates every interleaving (and those of the variant "
+             "without the mutex, replayed as schedules), and the two REAL functions are run in two goroutines with "
+             "both store interfaces gated, one store call per step, mutex waits recognised from goroutine dumps, both "
+             "stores projected and judged after every step.",
         note="Bounded: checkpoint interval 2 model heights (= 1000 real blocks), <=7 model heights, 3 peers, one "
              "lie height per liar, <=2 reorganisations; 14 fixed scenarios plus scenarios sampled by VERIF_SEED "
              "(not every assignment). cfHandler's loop glue (lines 528-742) is re-implemented by the driver from "
              "the real in-memory tips (its sleeps make running it per path too slow), so changes inside that loop "
-             "are not executed. A reorganisation falls only where the handler waits for the network / sleeps, not "
-             "between two store calls of one step. Panics and honest peers banned without any false answer in "
+             "are not executed. In the main model a reorganisation falls only where the handler waits for the network "
+             "/ sleeps; store-call interleavings are explored only for rollBackToHeight vs writeCFHeadersMsg (3-4 "
+             "block chain). Panics and honest peers banned without any false answer in "
              "play are counted in the evidence, not judged (no clause of C03); liveness belongs to C04.",
         design="4 C03", technique="TLA+ spec + TLC exhaustive + spec-to-code replay of every transition with gates + "
                                   "TLC-judged observed traces"),
@@ -45,6 +52,8 @@ PROPS = {
 }
 
 CODE_VERSION = json.load(open(os.path.join(SPEC, "code_version.json")))
+# switch of the second model (CFRace.tla): filterHeaderStoreMtx of b56652a
+RACE_MUTEX = CODE_VERSION.pop("RaceMutex", True)
 
 ASSUMPTIONS = [
     "an honest peer (kind H) answers every broadcast in time with the true data of the chain the request names "
@@ -168,6 +177,90 @@ def my_drift(pf, observed):
     return n_steps, n_drift, samples
 
 
+def race_scenarios(tier):
+    bts = (3,) if tier == "quick" else (3, 4)
+    out = []
+    for bt in bts:
+        for ft in range(1, bt):
+            for e in range(ft + 1, bt + 1):
+                for h in range(0, bt):
+                    out.append("[bt |-> %d, ft |-> %d, e |-> %d, h |-> %d]" % (bt, ft, e, h))
+    return out
+
+
+def race_phase(tier, rng, sc, first_id):
+    """CFRace.tla: rollBackToHeight against writeCFHeadersMsg at store-call granularity.
+    Returns (path lines, number of predicted paths, info, edges)."""
+    scen = race_scenarios(tier)
+    defs = "RScenSet == {%s}" % ", ".join(scen)
+    lines, info, edges, tot = [], {}, [], _Sum()
+    n_pred = 0
+    for mutex in (RACE_MUTEX, not RACE_MUTEX):
+        tlc = core.run_tlc([SPEC], "CFRace", dict(Mutex=mutex), workers=1,
+                           invariants=["TypeOK"] + (["NoViolation"] if mutex else []),
+                           cfg_extra="CONSTANT RScen <- RScenSet", extra_defs=defs,
+                           workdir=os.path.join(sc, "race%d" % mutex), timeout=900)
+        if not tlc.ok:
+            raise core.MachineryError("TLC on CFRace failed: %s\n%s" % (tlc.error, tlc.stdout_tail[-3000:]))
+        g = core.Graph.load(tlc)
+        pp, _ = core.edge_cover(g, rng)
+        tmp = os.path.join(sc, "racepaths%d.ndjson" % mutex)
+        core.write_paths(g, pp, tmp)
+        predicted = mutex == RACE_MUTEX
+        for line in open(tmp):
+            d = json.loads(line)
+            d["id"] = first_id + len(lines)
+            # behaviours of the variant that is NOT the code are schedules only
+            d["sched"] = not predicted
+            lines.append(json.dumps(d, separators=(",", ":")))
+        if predicted:
+            n_pred = len(pp)
+            edges = g.edges
+            tot.generated, tot.distinct, tot.depth, tot.wall = tlc.generated, tlc.distinct, tlc.depth, tlc.wall
+        info["mutex_%s" % str(mutex).lower()] = {
+            "states": tlc.distinct, "edges": len(g.edges), "paths": len(pp),
+            "model_violating_edges": sum(1 for e in g.edges if e[4]), "predicts_the_code": predicted}
+        shutil.rmtree(os.path.join(sc, "race%d" % mutex), ignore_errors=True)
+    info["scenarios"] = len(scen)
+    return lines, n_pred, info, edges, tot
+
+
+def race_drift(lines, observed):
+    """Predicted (code-shaped) paths: step results and observables must match; steps the driver
+    added to run the goroutines to their end are not part of the path."""
+    exp = {}
+    for l in lines:
+        d = json.loads(l)
+        exp[d["id"]] = d
+    n_steps = n_drift = skipped = 0
+    samples = []
+    for t in observed:
+        e = exp[t["id"]]
+        if t.get("error"):
+            continue
+        steps = [s for s in (t["steps"] or []) if not s.get("note")]
+        skipped += sum(1 for s in steps if s["act"]["res"].startswith("skip"))
+        if e["sched"]:
+            continue
+        bad = None
+        if t.get("init_obs") != e["init_obs"] or len(steps) != len(e["steps"]):
+            bad = 0
+        else:
+            for i, (a, b) in enumerate(zip(steps, e["steps"])):
+                n_steps += 1
+                if a["act"] != b["act"] or a["obs"] != b["obs"]:
+                    bad = i + 1
+                    break
+        if bad is not None:
+            n_drift += 1
+            if len(samples) < 5:
+                samples.append({"trace": t["id"], "step": bad, "what": "CFRace path",
+                                "labels": [label(x["act"]) for x in steps[:max(bad, 1)]],
+                                "model": e["steps"][bad - 1] if bad else e["init_obs"],
+                                "code": steps[bad - 1] if bad and bad <= len(steps) else t.get("init_obs")})
+    return n_steps, n_drift, samples, skipped
+
+
 class _Sum:
     """Totals over the phases, in the shape family.finish expects."""
     def __init__(self):
@@ -184,12 +277,16 @@ def run(prop_id, tier, seed, replay=None):
         pf = os.path.join(sc, "paths.ndjson")
         scen_all, phase_info = [], []
         maxh = 5
+        replay_race = []
         if replay:
             family.paths_from_replay(replay, pf)
             tot, g, paths, unreach = family._NoTLC(), None, [0], 0
             for line in open(pf):
                 d = json.loads(line)
                 maxh = max([maxh, len(d["init_obs"]["B"]) - 1] + [len(x["obs"]["B"]) - 1 for x in d["steps"]])
+                if "rsc" in d["init_obs"]:      # a trace of the CFRace slice: replayed as a schedule
+                    d["sched"] = True
+                    replay_race = [json.dumps(d)]
         else:
             tot, unreach, paths = _Sum(), 0, []
             g = tot
@@ -227,21 +324,46 @@ def run(prop_id, tier, seed, replay=None):
                     phase_info.append({"config": consts, "scenarios": len(scen), "states": tlc.distinct,
                                        "edges": len(gp.edges), "paths": len(pp), "tlc_wall_s": round(tlc.wall, 1)})
                     shutil.rmtree(os.path.join(sc, "tlc%d" % pi), ignore_errors=True)
+        race_lines, race_info = replay_race, {}
+        if not replay:
+            race_lines, n_pred, race_info, r_edges, r_tot = race_phase(tier, rng, sc, len(paths))
+            tot.generated += r_tot.generated
+            tot.distinct += r_tot.distinct
+            tot.wall += r_tot.wall
+            tot.edges += r_edges
+            paths += [[0]] * len(race_lines)
         binary = family.build_overlay_test(
-            PKG, [DRIVER], os.path.join(sc, "neutrino.test"),
+            PKG, [DRIVER, RACE_DRIVER], os.path.join(sc, "neutrino.test"),
             extra_overlay={os.path.join(core.REPO, "chainsync", os.path.basename(HOOK)): HOOK})
-        observed, log = family.run_driver(binary, "TestVerifCFSyncReplay", pf, os.path.join(sc, "obs.ndjson"), sc,
-                                          env_extra={"VERIF_SEED": str(seed), "VERIF_CFS_MAXH": str(maxh)},
-                                          timeout=7200)
-        verdict = family.judge([SPEC], "CFSyncProps", PROPS[prop_id], prop_id, observed, label=label)
+        if replay_race:
+            observed = []
+            open(pf, "w").close()
+        else:
+            observed, log = family.run_driver(binary, "TestVerifCFSyncReplay", pf, os.path.join(sc, "obs.ndjson"), sc,
+                                              env_extra={"VERIF_SEED": str(seed), "VERIF_CFS_MAXH": str(maxh)},
+                                              timeout=7200)
         dr = my_drift(pf, observed)
+        if race_lines:
+            rpf = os.path.join(sc, "racepaths.ndjson")
+            open(rpf, "w").write("\n".join(race_lines) + "\n")
+            robs, _ = family.run_driver(binary, "TestVerifCFRaceReplay", rpf, os.path.join(sc, "raceobs.ndjson"),
+                                        sc, timeout=3600)
+            rd = race_drift(race_lines, robs)
+            for t in robs:
+                t["steps"] = t["steps"] or []
+            race_info.update({"replayed_paths": len(robs), "replayed_steps": sum(len(t["steps"]) for t in robs),
+                              "schedule_commands_not_applicable": rd[3]})
+            dr = (dr[0] + rd[0], dr[1] + rd[1], (dr[2] + rd[2])[:5])
+            observed = observed + robs
+        verdict = family.judge([SPEC], "CFSyncProps", PROPS[prop_id], prop_id, observed, label=label)
         panics = sum(1 for t in observed for s in t["steps"] if s["act"].get("res") == "panic")
         hb = sum(1 for t in observed for i, s in enumerate(t["steps"])
                  if any(a["kind"] == "H" and s["obs"]["ban"][q] == 1 and
                         (t["steps"][i - 1]["obs"] if i else t["init_obs"])["ban"][q] == 0
                         for q, a in enumerate(s["obs"]["asg"])))
         return family.finish(prop_id, tier, seed, t0, tot, g, paths, observed, verdict, dr,
-                             {"phases": phase_info, "code_version": CODE_VERSION, "scenarios": len(scen_all),
+                             {"phases": phase_info, "race_slice": race_info, "code_version": CODE_VERSION,
+                              "scenarios": len(scen_all),
                               "scenario_list": [scen_tla(*s) for s in scen_all][:60],
                               "edges_only_reachable_through_model_violation": unreach,
                               "replayed_steps_where_the_code_panicked": panics,
